@@ -331,6 +331,49 @@ func (e *secretExec) step(s *SecStep) {
 				}
 			}
 		}
+	case "view":
+		// ONE read-only view held across reads (of a Meta, and of a token): a good read first, then
+		// every bad key; what the first read learnt must not answer for the later ones
+		views := map[string]meta.ReadOnly{"Meta.ReadOnly()": e.withStored(e.stored).ReadOnly()}
+		if tk, _, _, ok := e.buildToken("v"); ok {
+			views["token.Meta()"] = metaOf(tk)
+		}
+		names := []string{"Meta.ReadOnly()", "token.Meta()"}
+		for _, name := range names {
+			view, ok := views[name]
+			if !ok {
+				continue
+			}
+			got, err := e.read(view, "k", p.Key)
+			if err != nil || !bytes.Equal(got, p.Plain) {
+				o.Violate("C19", "roundtrip", fmt.Sprintf("value read through a held %s view: err=%v", name, err), nil)
+				continue
+			}
+			flipped := append([]byte{}, p.Key...)
+			flipped[s.N%32] ^= 1 << uint(s.N%8)
+			other := bytes.Repeat([]byte{0x5a}, 32)
+			bad := map[string][]byte{"another key": other, "a key differing in one bit": flipped, "a nil key": nil, "an empty key": {}, "a 16-byte key": p.Key[:16], "a 33-byte key": append(append([]byte{}, p.Key...), 1), "an all-zero key": make([]byte, 32)}
+			for _, what := range []string{"another key", "a key differing in one bit", "a nil key", "an empty key", "a 16-byte key", "a 33-byte key", "an all-zero key"} {
+				for _, asStr := range []bool{true, false} {
+					var rerr error
+					if asStr {
+						_, rerr = view.GetEncryptedString("k", bad[what])
+					} else {
+						_, rerr = view.GetEncryptedBytes("k", bad[what])
+					}
+					o.Fault("wrong_key")
+					e.sig("view:"+what, fmt.Sprint(rerr != nil))
+					if rerr == nil {
+						clause := "wrong-key-accepted"
+						if what != "another key" && what != "a key differing in one bit" {
+							clause = "bad-key-accepted"
+						}
+						o.Violate("C19", clause, fmt.Sprintf("after a good read through the same %s view, a read with %s returns data", name, what), map[string]string{"view": "held"})
+						break
+					}
+				}
+			}
+		}
 	case "retain":
 		// values that were read stay what they were while OTHER values are decrypted (other
 		// entry, other Meta, other key, other length; both APIs): a returned slice is the
@@ -636,6 +679,7 @@ func genSecret(r *Rand, g GenCfg) Plan {
 	}
 	p.Steps = append(p.Steps, SecStep{Op: "retain", N: r.Intn(1 << 16)})
 	p.Steps = append(p.Steps, SecStep{Op: "rngfault"})
+	p.Steps = append(p.Steps, SecStep{Op: "view", N: r.Intn(256)})
 	p.Steps = append(p.Steps, SecStep{Op: "extend"})
 	for i := 0; i < 4; i++ {
 		p.Steps = append(p.Steps, SecStep{Op: "otherkey", N: r.Intn(256)})
